@@ -1,6 +1,11 @@
 # ./check configuration for C18 (merged by mc/props.py)
 PROP = dict(
-    pkg="http3", test="TestVerifC18", files=["mc/c18/*.go"], libs=["explore", "canon", "sim", "wireobs"],
+    libs=["explore", "canon", "sim", "wireobs"],
+    targets=[
+        dict(name="e2", pkg="http3", test="TestVerifC18", files=["mc/c18/*.go"]),
+        dict(name="race", pkg="http3", test="TestVerifC18Race", files=["mc/c18/*.go", "mc/c18/race/*.go"], parts=["race-pass"],
+             race=True, shards=4, gomaxprocs=4, env={"GORACE": "halt_on_error=1", "GODEBUG": "randseednop=0"}),
+    ],
     engine="E2 simx", level="fault_enumeration", shards="ncpu", gomaxprocs=1,
     env={"GODEBUG": "randseednop=0,asyncpreemptoff=1"},
     deterministic=False,
